@@ -130,6 +130,17 @@ def make_device(rng: random.Random, *, holes=0, terminals=2, max_edge_length=Non
     raise RuntimeError("could not build a device mesh")
 
 
+def build_like_solver(ops):
+    """The solver's life cycle for MeshOperators: build_operators() (all potential-independent operators and the factorisation of
+    the mu Laplacian) before the link variables are set.  On a perfectly symmetric mesh without pinned sites the Neumann
+    Laplacian can be exactly singular and the factorisation refuses; the operators themselves are assigned before that."""
+    try:
+        ops.build_operators()
+    except RuntimeError:
+        assert ops.divergence is not None
+    return ops
+
+
 def independent_terminal_sites(dev, margin=1e-7):
     """Terminal sites recomputed from first principles: mesh sites on the boundary of the triangulation (vertices of an
     edge that belongs to exactly one triangle) that lie inside the terminal polygon.  Returns, per terminal name,
